@@ -181,7 +181,7 @@ def engine_run(ctx, maxn, what):
     import multiprocessing
     J = ENGINE_WORKERS * 4
     jobs = [(maxn, j, J, what, DRIVER) for j in range(J)]
-    with multiprocessing.get_context('fork').Pool(ENGINE_WORKERS) as pool:
+    with multiprocessing.get_context('fork').Pool(2 if G.ambient(ctx) else ENGINE_WORKERS) as pool:
         res = pool.map(engine_job, jobs, chunksize=1)
     bad = []
     for evals, nontriv, b in res:
@@ -305,6 +305,27 @@ def wrapper_args(img, rng, p_plain=0.4):
     return allowed, expected
 
 
+FIRST_CHUNKS = (1, 3, 4, 17, 63, 64, 100, 107, 108, 109, 200)
+
+
+def small_first_chunk_cases(rng):
+    """every format's clean image with a small first chunk (1..200 bytes: less than any header structure, and at
+    -1/0/+1 of the LUKS header fields read by virtual_size) followed by 512-byte blocks - never thinned out: run
+    in every ambient child, directly and through InspectWrapper"""
+    out = []
+    for fmt in G.FORMATS:
+        data, bounds = G.clean_small(fmt)
+        if fmt == 'raw':
+            data = bytes(700)
+        img = G.Img(fmt, data, bounds, 'wf/%s/clean' % fmt)
+        n = len(data)
+        firsts = FIRST_CHUNKS if n <= 64 * G.K else sorted(rng.sample(FIRST_CHUNKS, 3))
+        fam = [('first%d' % c, [c] + G.fixed(n - c, 512)) for c in firsts if c < n]
+        fam.append(('first%d+%d' % (firsts[0], firsts[1]), [firsts[0], firsts[1]] + G.fixed(n - firsts[0] - firsts[1], 512)))
+        out.append((img, fam))
+    return out
+
+
 def correspondence(ctx):
     rng = ctx.rng
     budget = dict(BUDGET['quick' if ctx.quick else 'thorough'])
@@ -340,6 +361,11 @@ def correspondence(ctx):
             ctx.count('mode/trace')
         ctx.sample({'fmt': p.img.fmt, 'tag': p.img.tag, 'length': len(p.img.data), 'chunking': p.ctag,
                     'chunks': len(p.sizes), 'implementation': impl.split('\t')[-1]}, 5)
+    for img, fam in small_first_chunk_cases(rng):
+        for tag, sizes in fam:
+            pairs.append(G.Pair(img, sizes, tag, trace=len(img.data) <= 4096))
+            if len(img.data) <= 64 * G.K or tag == fam[0][0]:
+                pairs.append(G.Pair(img, sizes, tag, kind='wrap'))
     G.add_companions(pairs, rng)
     out += G.run_pairs(ctx, pairs, on)
     # a few sparse streams (> 4 GiB; zero gaps skipped by the model through the inspx request)
@@ -541,7 +567,7 @@ def wrapper_oracle(ctx, img, family, fails, allowed=None, expected=None, compani
                 ctx.evaluations += 1
                 ctx.count('search/wrapper-protocol/' + drive)
                 form = ctx.rng.randrange(64)
-                sub = ctx.rng.choice([None, None, 'trivial', 'override'])
+                sub = ctx.rng.choice((None, None) + G.SUBCLASS_KINDS)
                 want = run(G.drive_sizes(sizes, drive, k))
                 try:
                     got = wrap_core('\t' + G.drive_wrapper(data, sizes, drive, allowed, expected, k, form, sub))
@@ -688,6 +714,12 @@ def search(ctx, seeds, full=False):
             break
     # 2. the capture engine alone, exhaustively
     fails += engine_search(ctx, (8 if ctx.quick else 10) - (1 if G.ambient(ctx) else 0), region_seeds)
+    # 2b. small first chunks over every format, directly and through the wrapper
+    for img, fam in small_first_chunk_cases(rng):
+        if enough():
+            break
+        stream_oracle(ctx, img, fam, rng, fails, budget_pokes=2, presentations=1)
+        wrapper_oracle(ctx, img, fam, fails)
     # 3. generated streams
     rounds = (2 if full else 1) if ctx.quick else (4 if full else 2)
     for _ in range(rounds):
